@@ -302,6 +302,7 @@ SimpleString::SimpleString(const char *other, size_t repeatCount)
     : buffer_(NULLPTR), bufferSize_(0)
 {
     size_t otherStringLength = StrLen(other);
+    if (otherStringLength == 0) repeatCount = 0; /* repeating the empty string: nothing to copy, however large the count */
     setInternalBufferToNewBuffer(otherStringLength * repeatCount + 1);
 
     char* next = buffer_;
